@@ -219,8 +219,20 @@ func Frame(b []byte) []byte {
 	return append(binary.BigEndian.AppendUint16(nil, uint16(len(b))), b...)
 }
 
+// UpOpts are optional server-side limits of a fake upstream.
+type UpOpts struct {
+	QUICMaxStreams int64 // concurrent bidirectional streams a quic / h3 server grants (0 = 100000)
+}
+
 // StartUpstream starts a fake upstream of the given kind on ip (port 0 = any).
 func StartUpstream(kind, tag, ip string, port int, tlsCfg *tls.Config, h Handler) (*FakeUpstream, error) {
+	return StartUpstreamWith(kind, tag, ip, port, tlsCfg, h, UpOpts{})
+}
+
+func StartUpstreamWith(kind, tag, ip string, port int, tlsCfg *tls.Config, h Handler, opts UpOpts) (*FakeUpstream, error) {
+	if opts.QUICMaxStreams == 0 {
+		opts.QUICMaxStreams = 100000
+	}
 	u := &FakeUpstream{Kind: kind, Tag: tag, IP: ip, TLS: tlsCfg}
 	if h != nil {
 		u.SetHandler(h)
@@ -296,7 +308,7 @@ func StartUpstream(kind, tag, ip string, port int, tlsCfg *tls.Config, h Handler
 			return nil, err
 		}
 		u.Port = pc.LocalAddr().(*net.UDPAddr).Port
-		srv := &http3.Server{Handler: http.HandlerFunc(func(w http.ResponseWriter, r *http.Request) { u.serveHTTP(w, r, "h3") }), TLSConfig: http3.ConfigureTLSConfig(tlsCfg.Clone()), QuicConfig: &quic.Config{MaxIncomingStreams: 100000}}
+		srv := &http3.Server{Handler: http.HandlerFunc(func(w http.ResponseWriter, r *http.Request) { u.serveHTTP(w, r, "h3") }), TLSConfig: http3.ConfigureTLSConfig(tlsCfg.Clone()), QuicConfig: &quic.Config{MaxIncomingStreams: opts.QUICMaxStreams}}
 		addClose(pc)
 		addClose(srv)
 		go srv.Serve(pc)
@@ -308,7 +320,7 @@ func StartUpstream(kind, tag, ip string, port int, tlsCfg *tls.Config, h Handler
 		u.Port = pc.LocalAddr().(*net.UDPAddr).Port
 		cfg := tlsCfg.Clone()
 		cfg.NextProtos = []string{"doq"}
-		ql, err := quic.Listen(pc, cfg, &quic.Config{MaxIdleTimeout: 30 * time.Second, MaxIncomingStreams: 100000})
+		ql, err := quic.Listen(pc, cfg, &quic.Config{MaxIdleTimeout: 30 * time.Second, MaxIncomingStreams: opts.QUICMaxStreams})
 		if err != nil {
 			pc.Close()
 			return nil, err
